@@ -25,6 +25,7 @@ import (
 	"strconv"
 	"strings"
 	"sync"
+	"testing/fstest"
 	"time"
 
 	"github.com/traefik/yaegi/interp"
@@ -33,13 +34,22 @@ import (
 
 // Ev is one event of a history.
 type Ev struct {
-	Op   string `json:"op"`             // def | use | cancel
-	Kind string `json:"kind,omitempty"` // def: named method closure mvtop mvfunc wrapper; cancel: loop chan expired
-	A    int    `json:"a,omitempty"`
-	B    int    `json:"b,omitempty"`
-	D    int    `json:"d,omitempty"`   // use: index of the definition
-	Via  string `json:"via,omitempty"` // use: eval | host
-	X    int    `json:"x,omitempty"`
+	Op string `json:"op"` // def | use | cancel
+	// def: named method closure mvtop mvfunc wrapper imported (the kinds of the model)
+	// cancel: loop chan expired callloop (a busy loop that calls a closure defined earlier) spinclosure (the busy loop
+	// is inside a closure defined earlier) hold (a busy loop whose goroutine is kept from returning until the next
+	// event is over: the window of F10-1)
+	Kind string `json:"kind,omitempty"`
+	// def: how the function value is stored / what its body does; the model does not distinguish the variants
+	//   closure: "" a variable | field (struct field) | map | maker (returned by a function) | nested (made by a closure)
+	//   mvfunc:  "" a variable set by init | map (a map entry set by init)
+	//   named, wrapper: "" | chan (the body starts a goroutine and receives its result over a channel)
+	Var string `json:"var,omitempty"`
+	A   int    `json:"a,omitempty"`
+	B   int    `json:"b,omitempty"`
+	D   int    `json:"d,omitempty"`   // use: index of the definition
+	Via string `json:"via,omitempty"` // use: eval | evalctx (EvalWithContext with a context that is never cancelled) | host
+	X   int    `json:"x,omitempty"`
 }
 
 type History struct {
@@ -52,14 +62,38 @@ type opSeen struct{ fid, rid uint64 }
 
 type session struct {
 	ip      *interp.Interpreter
+	fsys    fstest.MapFS          // source packages imported by "imported" definitions
 	handles map[int]reflect.Value // host-held function values, by definition index
 	mu      sync.Mutex
 	ops     []opSeen
 	lastRID uint64
+	// a held cancelled evaluation: its goroutine is parked in the hook until release is closed
+	capture bool
+	lastGID int64
+	holdGID int64
+	release chan struct{}
+	holdBase int
 }
 
 func newSession() *session {
-	return &session{ip: interp.New(interp.Options{}), handles: map[int]reflect.Value{}}
+	fsys := fstest.MapFS{}
+	s := &session{ip: interp.New(interp.Options{GoPath: "./", SourcecodeFilesystem: fsys}), fsys: fsys, handles: map[int]reflect.Value{}}
+	// a stateless closure the cancelled evaluations of kind callloop call, and one that spins (spinclosure)
+	if _, out := s.eval("var Z = func(x int) int { return x + 1 }\nvar SP = func() int { n := 0; for { n++ }; return n }"); out != "" {
+		panic("session prelude: " + out)
+	}
+	return s
+}
+
+func curGID() int64 {
+	var b [64]byte
+	n := runtime.Stack(b[:], false)
+	f := strings.Fields(string(b[:n]))
+	if len(f) < 2 {
+		return 0
+	}
+	id, _ := strconv.ParseInt(f[1], 10, 64)
+	return id
 }
 
 func (s *session) hook(info interp.VerifStepInfo) {
@@ -68,7 +102,38 @@ func (s *session) hook(info interp.VerifStepInfo) {
 	}
 	s.mu.Lock()
 	s.ops = append(s.ops, opSeen{info.FrameID, info.RunID})
+	var wait chan struct{}
+	if s.capture || s.holdGID != 0 {
+		g := curGID()
+		if s.capture {
+			s.lastGID = g
+		}
+		if s.holdGID != 0 && g == s.holdGID {
+			wait = s.release
+		}
+	}
 	s.mu.Unlock()
+	if wait != nil {
+		<-wait
+	}
+}
+
+// releaseHold lets the goroutine of the held cancelled evaluation go on (it finds its frame stale and returns).
+func (s *session) releaseHold() string {
+	s.mu.Lock()
+	rel := s.release
+	s.holdGID, s.release = 0, nil
+	s.mu.Unlock()
+	if rel == nil {
+		return ""
+	}
+	close(rel)
+	for deadline := time.Now().Add(time.Second); time.Now().Before(deadline); time.Sleep(50 * time.Microsecond) {
+		if len(evalGoroutines(&stackBuf)) <= s.holdBase {
+			return ""
+		}
+	}
+	return "held evaluation: goroutine still alive after its release"
 }
 
 func (s *session) eval(src string) (v reflect.Value, out string) {
@@ -84,11 +149,31 @@ func (s *session) eval(src string) (v reflect.Value, out string) {
 	return v, ""
 }
 
+// evalCtx evaluates with a context that is never cancelled.
+func (s *session) evalCtx(src string) (v reflect.Value, out string) {
+	defer func() {
+		if r := recover(); r != nil {
+			out = "crash:" + strings.ReplaceAll(fmt.Sprint(r), " ", "_")
+		}
+	}()
+	v, err := s.ip.EvalWithContext(context.Background(), src)
+	if err != nil {
+		return v, "err:" + strings.ReplaceAll(common.FirstLine(err.Error()), " ", "_")
+	}
+	return v, ""
+}
+
 // define evaluates the source of definition number i.
 func (s *session) define(i int, e Ev) string {
 	var srcs []string
 	st := fmt.Sprintf("var S%d int\n", i)
-	body := fmt.Sprintf("{ S%d++; return x*%d + %d + S%d }", i, e.A, e.B, i)
+	ret := fmt.Sprintf("x*%d + %d + S%d", e.A, e.B, i)
+	body := fmt.Sprintf("{ S%d++; return %s }", i, ret)
+	if e.Var == "chan" {
+		// the value is computed by a goroutine and received over a channel: blocking channel operations of a plain
+		// evaluation after a cancellation (ba001d8)
+		body = fmt.Sprintf("{ S%d++; c := make(chan int); go func() { d := make(chan int); go func() { d <- %d }(); c <- x*%d + <-d }(); v := <-c; return v + S%d }", i, e.B, e.A, i)
+	}
 	handle := ""
 	switch e.Kind {
 	case "named":
@@ -96,15 +181,36 @@ func (s *session) define(i int, e Ev) string {
 	case "method":
 		srcs = []string{st + fmt.Sprintf("type T%d struct{}\nfunc (T%d) M(x int) int %s", i, i, body)}
 	case "closure":
-		srcs = []string{st + fmt.Sprintf("var C%d = func(x int) int %s", i, body)}
-		handle = fmt.Sprintf("C%d", i)
+		switch e.Var {
+		case "field":
+			srcs = []string{st + fmt.Sprintf("var H%d = struct{ f func(int) int }{f: func(x int) int %s}", i, body)}
+		case "map":
+			srcs = []string{st + fmt.Sprintf("var M%d = map[string]func(int) int{\"k\": func(x int) int %s}", i, body)}
+		case "maker":
+			srcs = []string{st + fmt.Sprintf("func mk%d(a int) func(int) int { return func(x int) int { S%d++; return x*a + %d + S%d } }\nvar C%d = mk%d(%d)", i, i, e.B, i, i, i, e.A)}
+		case "nested":
+			srcs = []string{st + fmt.Sprintf("var C%d = func() func(int) int { b := %d; return func(x int) int { S%d++; return x*%d + b + S%d } }()", i, e.B, i, e.A, i)}
+		default:
+			srcs = []string{st + fmt.Sprintf("var C%d = func(x int) int %s", i, body)}
+		}
+		handle = useFn(i, e.Kind, e.Var)
 	case "mvtop":
 		srcs = []string{st + fmt.Sprintf("type T%d struct{}\nfunc (T%d) M(x int) int %s", i, i, body), fmt.Sprintf("V%d := T%d{}.M", i, i)}
 	case "mvfunc":
-		srcs = []string{st + fmt.Sprintf("type T%d struct{}\nfunc (T%d) M(x int) int %s\nvar V%d func(int) int\nfunc init() { V%d = T%d{}.M }", i, i, body, i, i, i)}
+		if e.Var == "map" {
+			srcs = []string{st + fmt.Sprintf("type T%d struct{}\nfunc (T%d) M(x int) int %s\nvar M%d = map[string]func(int) int{}\nfunc init() { M%d[\"k\"] = T%d{}.M }", i, i, body, i, i, i)}
+		} else {
+			srcs = []string{st + fmt.Sprintf("type T%d struct{}\nfunc (T%d) M(x int) int %s\nvar V%d func(int) int\nfunc init() { V%d = T%d{}.M }", i, i, body, i, i, i)}
+		}
+		handle = useFn(i, e.Kind, e.Var)
 	case "wrapper":
 		srcs = []string{st + fmt.Sprintf("func N%d(x int) int %s", i, body)}
 		handle = fmt.Sprintf("N%d", i)
+	case "imported":
+		// a source package whose function reads a variable set by a global initialiser of the package
+		s.fsys[fmt.Sprintf("src/p%d/p%d.go", i, i)] = &fstest.MapFile{Data: []byte(fmt.Sprintf(
+			"package p%d\n\nvar S int\n\nfunc mkb() int { return %d }\n\nvar Bv = mkb()\n\nfunc N(x int) int { S++; return x*%d + Bv + S }\n", i, e.B, e.A))}
+		srcs = []string{fmt.Sprintf("import \"p%d\"", i)}
 	}
 	for _, src := range srcs {
 		if _, out := s.eval(src); out != "" {
@@ -121,19 +227,36 @@ func (s *session) define(i int, e Ev) string {
 	return ""
 }
 
-func useExpr(i int, kind string, x int) string {
+// useFn: the expression that denotes the function value of definition i.
+func useFn(i int, kind, variant string) string {
 	switch kind {
 	case "named", "wrapper":
-		return fmt.Sprintf("N%d(%d)", i, x)
+		return fmt.Sprintf("N%d", i)
 	case "method":
-		return fmt.Sprintf("T%d{}.M(%d)", i, x)
+		return fmt.Sprintf("T%d{}.M", i)
 	case "closure":
-		return fmt.Sprintf("C%d(%d)", i, x)
+		switch variant {
+		case "field":
+			return fmt.Sprintf("H%d.f", i)
+		case "map":
+			return fmt.Sprintf("M%d[\"k\"]", i)
+		}
+		return fmt.Sprintf("C%d", i)
+	case "mvfunc":
+		if variant == "map" {
+			return fmt.Sprintf("M%d[\"k\"]", i)
+		}
+	case "imported":
+		return fmt.Sprintf("p%d.N", i)
 	}
-	return fmt.Sprintf("V%d(%d)", i, x)
+	return fmt.Sprintf("V%d", i)
 }
 
-func (s *session) use(i int, kind, via string, x int) (out string) {
+func useExpr(i int, kind, variant string, x int) string {
+	return fmt.Sprintf("%s(%d)", useFn(i, kind, variant), x)
+}
+
+func (s *session) use(i int, kind, variant, via string, x int) (out string) {
 	if via == "host" {
 		h, ok := s.handles[i]
 		if !ok || h.Kind() != reflect.Func {
@@ -150,7 +273,13 @@ func (s *session) use(i int, kind, via string, x int) (out string) {
 		}
 		return fmt.Sprint(res[0].Interface())
 	}
-	v, o := s.eval(useExpr(i, kind, x))
+	var v reflect.Value
+	var o string
+	if via == "evalctx" {
+		v, o = s.evalCtx(useExpr(i, kind, variant, x))
+	} else {
+		v, o = s.eval(useExpr(i, kind, variant, x))
+	}
 	if o != "" {
 		return o
 	}
@@ -207,6 +336,14 @@ func (s *session) cancelled(kind string, n int) (string, string) {
 	switch kind {
 	case "loop":
 		src = fmt.Sprintf("for L%d := 0; ; L%d++ {}", n, n)
+	case "hold":
+		// the loop runs in a frame of its own: a loop in the root code would be revived by the root-id refresh of the
+		// evaluation that follows while this one is held (one evaluation at a time is an assumption of the property)
+		src = fmt.Sprintf("func() { for L%d := 0; ; L%d++ {} }()", n, n)
+	case "callloop":
+		src = fmt.Sprintf("for L%d := 0; ; L%d++ { Z(L%d) }", n, n, n)
+	case "spinclosure":
+		src = "SP()"
 	case "chan":
 		src = fmt.Sprintf("B%d := make(chan int)\n<-B%d", n, n)
 	default:
@@ -242,15 +379,28 @@ func (s *session) cancelled(kind string, n int) (string, string) {
 	}
 	deadline := time.Now().Add(2 * time.Second)
 	switch kind {
-	case "loop":
+	case "loop", "callloop", "spinclosure", "hold":
+		if kind == "hold" {
+			s.mu.Lock()
+			s.capture = true
+			s.mu.Unlock()
+		}
 		for time.Now().Before(deadline) && !returned() {
 			s.mu.Lock()
 			n := len(s.ops)
 			s.mu.Unlock()
-			if n >= 5 {
+			if n >= 8 {
 				break
 			}
 			time.Sleep(20 * time.Microsecond)
+		}
+		if kind == "hold" {
+			// park the goroutine of the evaluation at its next operation, then cancel: the call returns, its Execute does not
+			s.mu.Lock()
+			s.capture = false
+			s.holdGID, s.release, s.holdBase = s.lastGID, make(chan struct{}), len(base)
+			s.mu.Unlock()
+			time.Sleep(200 * time.Microsecond)
 		}
 		cancel()
 	case "chan":
@@ -274,6 +424,12 @@ func (s *session) cancelled(kind string, n int) (string, string) {
 	}
 	if got != nil && got.err != context.Canceled {
 		note = fmt.Sprintf("returned %v", got.err)
+	}
+	if kind == "hold" {
+		return kind, note
+	}
+	if kind == "callloop" || kind == "spinclosure" {
+		kind = "loop" // the same event for the model
 	}
 	// the goroutine EvalWithContext started must end (after ten that did not, the wait is cut short:
 	// the interpreter under test is broken and every such case is reported anyway)
@@ -311,21 +467,26 @@ func runHistory(h History, cancels bool) (results []string, line string, finalID
 	s := newSession()
 	interp.VerifSetStepHook(s.hook)
 	defer interp.VerifSetStepHook(nil) // the hook is removed after every case
-	kinds := map[int]string{}
+	kinds, variants := map[int]string{}, map[int]string{}
 	ndef, ncancel := 0, 0
 	var parts []string
 	for _, e := range h.Evs {
+		held := s.release != nil // a held evaluation is released when the event after it is over
 		switch e.Op {
 		case "def":
 			if out := s.define(ndef, e); out != "" {
-				notes = append(notes, fmt.Sprintf("definition %d (%s): %s", ndef, e.Kind, out))
+				notes = append(notes, fmt.Sprintf("definition %d (%s %s): %s", ndef, e.Kind, e.Var, out))
 			}
-			kinds[ndef] = e.Kind
+			kinds[ndef], variants[ndef] = e.Kind, e.Var
 			ndef++
 			parts = append(parts, fmt.Sprintf("(def %s %d %d)", e.Kind, e.A, e.B))
 		case "use":
-			results = append(results, s.use(e.D, kinds[e.D], e.Via, e.X))
-			parts = append(parts, fmt.Sprintf("(use %d %s %d)", e.D, e.Via, e.X))
+			results = append(results, s.use(e.D, kinds[e.D], variants[e.D], e.Via, e.X))
+			via := e.Via
+			if via == "evalctx" {
+				via = "eval"
+			}
+			parts = append(parts, fmt.Sprintf("(use %d %s %d)", e.D, via, e.X))
 		case "cancel":
 			if !cancels {
 				continue
@@ -342,6 +503,14 @@ func runHistory(h History, cancels bool) (results []string, line string, finalID
 			}
 			parts = append(parts, "(cancel "+k+")")
 		}
+		if held {
+			if note := s.releaseHold(); note != "" {
+				notes = append(notes, note)
+			}
+		}
+	}
+	if note := s.releaseHold(); note != "" {
+		notes = append(notes, note)
 	}
 	// the interpreter id as the last operation saw it
 	if _, out := s.eval("0"); out != "" {
@@ -358,56 +527,65 @@ func runHistory(h History, cancels bool) (results []string, line string, finalID
 // ---- classes and generation -------------------------------------------------------------------------
 
 // classOf: the decidable class of use number u (index into the events) of the history.
-// F10: the definition is a closure, a method value made inside a function, or is called directly by the host,
-// and a cancelled evaluation lies between its definition and this use.
+// F10-1: a direct call by the host made while the Execute of a cancelled evaluation has not returned yet (the event
+// right after a cancelled evaluation of kind hold).
 func classOf(h History, u int) string {
 	e := h.Evs[u]
-	defAt, nd := -1, 0
-	kind := ""
-	for i, x := range h.Evs {
-		if x.Op == "def" {
-			if nd == e.D {
-				defAt, kind = i, x.Kind
-			}
-			nd++
-		}
-	}
-	cancelBetween := false
-	for i := defAt + 1; i < u; i++ {
-		if h.Evs[i].Op == "cancel" {
-			cancelBetween = true
-		}
-	}
-	if cancelBetween && (kind == "closure" || kind == "mvfunc" || e.Via == "host") {
-		return "closure-or-wrapper-after-cancel"
+	if e.Via == "host" && u > 0 && h.Evs[u-1].Op == "cancel" && h.Evs[u-1].Kind == "hold" {
+		return "host-call-before-cancelled-execute-returned"
 	}
 	return ""
 }
 
-var kinds = []string{"named", "method", "closure", "mvtop", "mvfunc", "wrapper"}
-var cancelKinds = []string{"loop", "chan", "expired"}
+var kinds = []string{"named", "method", "closure", "mvtop", "mvfunc", "wrapper", "imported"}
+var cancelKinds = []string{"loop", "chan", "expired", "callloop", "spinclosure"}
 
-func genHistory(r *rand.Rand, domOnly bool) History {
-	var h History
-	nd := 1 + r.Intn(4)
-	var ks []string
-	for i := 0; i < nd; i++ {
-		k := kinds[r.Intn(len(kinds))]
-		if domOnly {
-			k = []string{"named", "method", "mvtop"}[r.Intn(3)]
-		}
-		ks = append(ks, k)
-		h.Evs = append(h.Evs, Ev{Op: "def", Kind: k, A: 1 + r.Intn(9), B: 1 + r.Intn(9)})
-	}
-	n := 3 + r.Intn(8)
-	for i := 0; i < n; i++ {
+func variantOf(r *rand.Rand, k string) string {
+	switch k {
+	case "closure":
+		return []string{"", "field", "map", "maker", "nested"}[r.Intn(5)]
+	case "mvfunc":
+		return []string{"", "map"}[r.Intn(2)]
+	case "named", "wrapper":
 		if r.Intn(3) == 0 {
+			return "chan"
+		}
+	}
+	return ""
+}
+
+func hostCallable(k string) bool { return k == "wrapper" || k == "closure" || k == "mvfunc" }
+
+// genHistory: definitions may come at any point (also after cancelled evaluations: imports after a cancellation,
+// closures made between two cancellations); holds = allow held cancelled evaluations (the F10-1 window).
+func genHistory(r *rand.Rand, holds bool) History {
+	var h History
+	var ks []string
+	def := func() {
+		k := kinds[r.Intn(len(kinds))]
+		ks = append(ks, k)
+		h.Evs = append(h.Evs, Ev{Op: "def", Kind: k, Var: variantOf(r, k), A: 1 + r.Intn(9), B: 1 + r.Intn(9)})
+	}
+	for i, nd := 0, 1+r.Intn(4); i < nd; i++ {
+		def()
+	}
+	n := 3 + r.Intn(10)
+	for i := 0; i < n; i++ {
+		c := r.Intn(12)
+		switch {
+		case c < 3:
 			h.Evs = append(h.Evs, Ev{Op: "cancel", Kind: cancelKinds[r.Intn(len(cancelKinds))]})
 			continue
+		case c == 3 && len(ks) < 7:
+			def()
+			continue
+		case c == 4 && holds && i+1 < n:
+			// a held evaluation is followed by a use (the window closes when that use is over)
+			h.Evs = append(h.Evs, Ev{Op: "cancel", Kind: "hold"})
 		}
-		d := r.Intn(nd)
-		via := "eval"
-		if ks[d] == "wrapper" || (ks[d] == "closure" && r.Intn(2) == 0) {
+		d := r.Intn(len(ks))
+		via := []string{"eval", "eval", "evalctx"}[r.Intn(3)]
+		if ks[d] == "wrapper" || (hostCallable(ks[d]) && r.Intn(2) == 0) {
 			via = "host"
 		}
 		h.Evs = append(h.Evs, Ev{Op: "use", D: d, Via: via, X: 1 + r.Intn(9)})
@@ -428,11 +606,35 @@ func nontrivial(h History) bool {
 	return false
 }
 
+// regressionHistories: the shapes of the repaired findings, run in every tier (ordinary cases: nothing is suppressed).
+func regressionHistories() []History {
+	d := func(k, v string, a, b int) Ev { return Ev{Op: "def", Kind: k, Var: v, A: a, B: b} }
+	u := func(i int, via string, x int) Ev { return Ev{Op: "use", D: i, Via: via, X: x} }
+	c := func(k string) Ev { return Ev{Op: "cancel", Kind: k} }
+	return []History{
+		// F10: every kind of function value, used from the script and from the host after one and after several cancellations
+		{Evs: []Ev{d("closure", "", 5, 2), d("closure", "field", 3, 1), d("closure", "map", 2, 7), d("closure", "maker", 4, 4), d("closure", "nested", 6, 1),
+			u(0, "eval", 4), u(1, "host", 2), c("loop"), u(0, "eval", 4), u(0, "host", 4), u(1, "eval", 2), u(1, "host", 2), u(2, "eval", 1), u(2, "host", 1),
+			u(3, "evalctx", 3), u(3, "host", 3), u(4, "eval", 5), c("chan"), c("expired"), u(4, "host", 5), u(2, "evalctx", 1), u(0, "host", 9)}},
+		{Evs: []Ev{d("mvfunc", "", 7, 1), d("mvfunc", "map", 2, 2), d("mvtop", "", 3, 3), d("wrapper", "", 3, 1), d("method", "", 1, 1),
+			u(0, "eval", 1), u(3, "host", 4), c("callloop"), u(0, "eval", 1), u(0, "host", 1), u(1, "eval", 2), u(1, "host", 2), u(2, "eval", 3), u(3, "host", 4),
+			c("spinclosure"), c("loop"), u(3, "host", 4), u(4, "eval", 6), u(1, "host", 2), u(0, "evalctx", 1)}},
+		// 2667a11: a package imported right after a cancelled evaluation, and after several
+		{Evs: []Ev{d("named", "", 1, 1), c("loop"), d("imported", "", 2, 9), u(1, "eval", 3), u(0, "eval", 1), c("chan"), c("expired"), d("imported", "", 3, 4),
+			u(2, "evalctx", 2), u(1, "eval", 3)}},
+		// ba001d8: goroutine + channel work in a plain Eval (and through the host) after cancellations
+		{Evs: []Ev{d("named", "chan", 3, 2), d("wrapper", "chan", 2, 5), u(0, "eval", 4), u(1, "host", 1), c("loop"), u(0, "eval", 4), u(1, "host", 1), u(0, "evalctx", 2),
+			c("chan"), u(0, "eval", 7), u(1, "host", 3)}},
+		// definitions made between two cancellations
+		{Evs: []Ev{d("named", "", 2, 2), c("loop"), d("closure", "map", 3, 3), d("wrapper", "", 1, 6), u(1, "host", 2), c("expired"), u(1, "eval", 2), u(2, "host", 5), u(1, "host", 2)}},
+	}
+}
+
 // ---- main ---------------------------------------------------------------------------------------------
 
 func main() {
 	run := common.NewRun("C10")
-	run.Res.Rule = "cases = histories define* ; (use | cancelled-eval)* on one interpreter: 1-4 definitions of kinds {named function, method, closure in a variable, method value bound at top level, method value bound inside init, exported wrapper held by the host}, then 3-10 events, a use being an Eval of a call or a direct host call, a cancelled evaluation being a busy loop, a blocked channel receive or an already expired context; half of the histories use only the kinds of the proved domain; non-trivial = at least one use after a cancelled evaluation; distinct = distinct protocol line"
+	run.Res.Rule = "cases = histories (define | use | cancelled-eval)* on one interpreter: 1-4 definitions first and more later, of kinds {named function, method, closure (in a variable, a struct field, a map, returned by a maker, made by a closure), method value bound at top level, method value bound inside init (variable or map entry), function held by the host, function of a source package imported at that point}, bodies optionally doing goroutine + channel work, then 3-12 events, a use being an Eval / EvalWithContext of a call or a direct host call of a function value obtained when it was defined, a cancelled evaluation being a busy loop, a busy loop calling an earlier closure, a loop inside an earlier closure, a blocked channel receive, an already expired context, or (a third of the histories) a busy loop whose Execute is held back until the next event is over; non-trivial = at least one use after a cancelled evaluation; distinct = distinct protocol line + variants"
 	defer run.Finish()
 	drv, err := common.StartDriver("C10")
 	if err != nil {
@@ -472,18 +674,34 @@ func main() {
 		im := join(impl) + ";id=" + strconv.FormatUint(id, 10)
 		rf := join(ref)
 		if count {
-			run.Count(line, nontrivial(h))
+			hb, _ := json.Marshal(h)
+			run.Count(string(hb), nontrivial(h))
 			run.Sample(map[string]interface{}{"history": line, "impl": im, "model": y, "spec": g, "ref": rf}, 8)
+			seenCancel := false
 			for _, e := range h.Evs {
 				switch e.Op {
 				case "def":
 					run.Hit("def:" + e.Kind)
+					if e.Var != "" {
+						run.Hit("def:" + e.Kind + "/" + e.Var)
+					}
+					if seenCancel {
+						run.Hit("def-after-cancel:" + e.Kind)
+					}
 				case "use":
 					run.Hit("use:" + e.Via)
+					if seenCancel {
+						run.Hit("use-after-cancel:" + e.Via)
+					}
+				case "cancel":
+					seenCancel = true
+					if e.Kind != "expired" {
+						run.Hit("cancel:" + e.Kind)
+					}
 				}
 			}
 			for _, p := range strings.Fields(line) {
-				if strings.HasPrefix(p, "expb") || strings.HasPrefix(p, "expa") || strings.HasPrefix(p, "loop") || strings.HasPrefix(p, "chan") {
+				if strings.HasPrefix(p, "expb") || strings.HasPrefix(p, "expa") {
 					run.Hit("cancel:" + strings.TrimSuffix(p, ")"))
 				}
 			}
@@ -563,7 +781,10 @@ func main() {
 	if run.Thorough() {
 		n = 5000
 	}
+	for _, h := range regressionHistories() {
+		check(h, true)
+	}
 	for i := 0; i < n; i++ {
-		check(genHistory(run.Rng, i%2 == 0), true)
+		check(genHistory(run.Rng, i%3 == 2), true)
 	}
 }
